@@ -151,6 +151,14 @@ def roundtrip_case(ctx, case, aa):
             if a.get('element') != b.get('element') or a.get('charge', 0) != b.get('charge', 0):
                 ctx.fail(slim, f'atom {n}: {a.get("element")}{a.get("charge", 0):+d} comes back as {b.get("element")}{b.get("charge", 0):+d}')
                 return
+        # hydrogens described per heavy atom: explicit hydrogen neighbours + hcount
+        def described_h(g, n):
+            return sum(1 for m in g[n] if g.nodes[m].get('element') == 'H') + (g.nodes[n].get('hcount', 0) or 0)
+        for i, n in enumerate(order):
+            if aa.nodes[n].get('element') != 'H' and described_h(aa, n) != described_h(back, i):
+                ctx.fail(slim, f'atom {n} ({aa.nodes[n].get("element")}): {described_h(aa, n)} hydrogens go in, '
+                               f'{described_h(back, i)} are described afterwards (hcount {back.nodes[i].get("hcount")})')
+                return
         ea = {frozenset((order.index(u), order.index(v))): d.get('order', 1) for u, v, d in aa.edges(data=True)}
         eb = {frozenset((u, v)): d.get('order') for u, v, d in back.edges(data=True)}
         if ea != eb:
@@ -168,21 +176,42 @@ def classify_k4(aa, bad):
     return None
 
 
+def reorder(aa, order):
+    """the same molecule with its nodes inserted in the given order (edges: reversed list, flipped orientation)"""
+    aa2 = nx.Graph()
+    for nn in order:
+        aa2.add_node(nn, **aa.nodes[nn])
+    for u, v, d in reversed(list(aa.edges(data=True))):
+        aa2.add_edge(v, u, **d)
+    return aa2
+
+
 def run(ctx):
     rng = ctx.rng('mol')
     n = ctx.budget(60, 1200)
     for i in range(n):
         if ctx.out_of_time():
             break
-        case = gen_mol.cut_case(rng, nmin=3, nmax=9, aromatic_p=0.2, share_p=rng.choice([0, 0, 0.3]))
+        if i % 4 == 3:
+            case = gen_mol.polymer_case(rng)          # equally named beads of different composition (end / middle units)
+            case.setdefault('nfrag', 2)
+        else:
+            case = gen_mol.cut_case(rng, nmin=3, nmax=9, aromatic_p=0.2, share_p=rng.choice([0, 0, 0.3]))
         # weights on some atoms
         try:
-            r = impl.resolver_from_string(case['s'])
+            r = impl.resolver_from_string(case['s'], legacy=case.get('legacy', True))
             with lib.quiet():
                 cg, aa = r.resolve()
         except Exception:   # noqa: BLE001
             ctx.count('mol', nontrivial=False)
             continue
+        if rng.random() < 0.5:
+            # any node ordering: the same molecule with its nodes inserted in a random order
+            order = list(aa.nodes)
+            rng.shuffle(order)
+            case = dict(case, node_order=order)
+            aa = reorder(aa, order)
+            ctx.feature('shuffled-node-order')
         for nn in aa.nodes:
             if rng.random() < 0.3:
                 w = rng.choice([0.5, 2.0, 0.25, 3.0])
@@ -198,12 +227,14 @@ def run(ctx):
 def corpus_case(ctx, payload):
     case = payload['case']
     try:
-        r = impl.resolver_from_string(case['s'])
+        r = impl.resolver_from_string(case['s'], legacy=case.get('legacy', True))
         with lib.quiet():
             cg, aa = r.resolve()
     except Exception:   # noqa: BLE001
         return
     ctx.count('corpus', lib.stable_hash(case['s']), sample=case['s'])
+    if case.get('node_order'):
+        aa = reorder(aa, case['node_order'])
     roundtrip_case(ctx, case, aa.copy())
     embed_case(ctx, case, cg, aa)
 
@@ -212,9 +243,11 @@ def replay(payload):
     import check
     ctx = check.Ctx(PROP, 'quick', 0, oracle_only=True)
     case = payload['case']
-    r = impl.resolver_from_string(case['s'])
+    r = impl.resolver_from_string(case['s'], legacy=case.get('legacy', True))
     with lib.quiet():
         cg, aa = r.resolve()
+    if case.get('node_order'):
+        aa = reorder(aa, case['node_order'])
     roundtrip_case(ctx, case, aa.copy())
     embed_case(ctx, case, cg, aa)
     for c, what, fid in ctx.failures:
@@ -232,7 +265,7 @@ def finding_still_fails(f):
         payload = json.load(fh)
     ctx = check.Ctx(PROP, 'quick', 0, oracle_only=True)
     case = payload['case']
-    r = impl.resolver_from_string(case['s'])
+    r = impl.resolver_from_string(case['s'], legacy=case.get('legacy', True))
     with lib.quiet():
         cg, aa = r.resolve()
     roundtrip_case(ctx, case, aa.copy())
